@@ -185,6 +185,7 @@ func genC17(seed uint64, run int, tier string) *Case {
 				name := pick(r, []string{"a", "b", "c"})
 				ops = append(ops, C17Op{Tmpl: "var", Src: "%" + name, Name: name, Res: []int{0}, Opts: opts})
 				ops = append(ops, C17Op{Tmpl: "call0", Src: "Patient.name.o0()", COpts: []COpt{{Kind: "fn", Name: "o0", Fn: "obs0"}}, Field: "name", Res: []int{0}, Opts: opts})
+				c.C17.EnumEval++
 			}
 			if idx, ok := nthList(n, len(c17CompileAlphabet), 3); ok {
 				var opts []COpt
@@ -196,6 +197,7 @@ func genC17(seed uint64, run int, tier string) *Case {
 					opts = append(opts, o)
 				}
 				c.C17.Compiles = append(c.C17.Compiles, C17Compile{Src: pick(r, []string{"true", "Patient.name.given", "1 + 1"}), Opts: opts, Patch: r.p(0.2), Note: "enumerated"})
+				c.C17.EnumCompile++
 			}
 		}
 		c.C17.Clients = [][]C17Op{ops}
